@@ -65,6 +65,19 @@ def run(res, tier):
         with open(tr, "a") as f:
             for line in open(seqtr):
                 f.write(line)
+        # 3. the same contract on pools PROVISIONED from JSON by the real handler (max_fails written or left to its documented
+        # default) whose peers counted failures through the real accounting - the state a user's configuration produces
+        ptr = os.path.join(tmp, "lbprov.ndjson")
+        psum = os.path.join(tmp, "lbprov.sum.json")
+        run_driver(vdrive, ["lb-prov", "-out", ptr, "-summary", psum], timeout=1800)
+        s3 = json.load(open(psum))
+        if s3["handlers"] < 500:
+            raise Inconclusive(f"lb-prov ran only {s3['handlers']} handlers")
+        with open(tr, "a") as f:
+            for line in open(ptr):
+                f.write(line)
+        cov["provisioned_pools"] = dict(handlers=s3["handlers"], selections=s3["selections"],
+                                        rule="7 policy configurations x max_fails omitted / 1 / 2 (fail_duration 30s) x 0-2 failures counted against each of 3 upstreams (one of them with two dial addresses) through the handler's own failure accounting; the pool state is read back from the provisioned handler, availability is judged with the documented max_fails (default 1)")
         n, bad, st = validate_traces(tmp, tr, "lb_traces.ndjson", "L4LBTrace.tla", "L4LBTrace.cfg")
         cov["traces_validated_against_impl"] = n + ident
         cov["single_selection"] = dict(pool_states=s1["pool_states"], selections=s1["selections"],
